@@ -1,29 +1,25 @@
 #!/bin/bash
 # usage: tools_evalmut.sh <mutant dir> <check id> [more check ids]   (harness-side helper, not a registered command)
 # 1. confirm in a scratch worktree: patch applies, suite passes, demo fails with / passes without the change
-# 2. apply to /repo, run the given checks (quick), undo
+# 2. run the given checks (quick) against the patched worktree (VERIF_REPO), leaving /repo untouched
 set -u
 M=$1; shift
 WT=/tmp/wt/eval_$$
 git -C /repo worktree add -q --detach $WT HEAD || exit 9
 cd $WT
-if ! git apply $M/patch.diff; then echo "PATCH-DOES-NOT-APPLY"; git -C /repo worktree remove --force $WT; exit 8; fi
+cp $M/demo.py $WT/demo_mut.py
+/venv/bin/python demo_mut.py > /tmp/demo_without.$$ 2>&1; DWO=$?
+if ! git apply $M/patch.diff; then echo "PATCH-DOES-NOT-APPLY"; cd /; git -C /repo worktree remove --force $WT; exit 8; fi
 T=$(/venv/bin/python -m pytest -q -p no:cacheprovider -x 2>&1 | tail -1)
 echo "tests-with-change: $T"
-cp $M/demo.py $WT/demo_mut.py
 /venv/bin/python demo_mut.py > /tmp/demo_with.$$ 2>&1; DW=$?
-git checkout -q -- . ; 
-/venv/bin/python demo_mut.py > /tmp/demo_without.$$ 2>&1; DWO=$?
 echo "demo-with-change: exit=$DW  demo-without-change: exit=$DWO"
-cd /; git -C /repo worktree remove --force $WT
-rm -f /tmp/demo_with.$$ /tmp/demo_without.$$
-if [ -n "$(git -C /repo status --porcelain)" ]; then echo "REPO-NOT-CLEAN"; exit 7; fi
-git -C /repo apply $M/patch.diff || { echo "cannot apply to /repo"; exit 6; }
+rm -f demo_mut.py /tmp/demo_with.$$ /tmp/demo_without.$$
 cd /verif
 for c in "$@"; do
-  VERIF_DUMP=/tmp/evalmut_$c.txt ./run check $c quick > /tmp/evalmut_$c.log 2>&1
-  echo "check $c exit=$? viol=$(grep -c '^VIOLATION' /tmp/evalmut_$c.log) :: $(tail -1 /tmp/evalmut_$c.log | cut -c1-160)"
-  head -3 /tmp/evalmut_$c.txt 2>/dev/null | cut -c1-260
+  VERIF_REPO=$WT VERIF_DUMP=/tmp/evalmut_$$_$c.txt ./run check $c ${TIER:-quick} > /tmp/evalmut_$$_$c.log 2>&1
+  echo "check $c exit=$? viol=$(grep -c '^VIOLATION' /tmp/evalmut_$$_$c.log) :: $(grep -v '^EXPLORER' /tmp/evalmut_$$_$c.log | tail -1 | cut -c1-160)"
+  head -3 /tmp/evalmut_$$_$c.txt 2>/dev/null | cut -c1-260
+  grep EXPLORER-ERROR /tmp/evalmut_$$_$c.log | head -2 | cut -c1-300
 done
-git -C /repo checkout -- .
-rm -rf /verif/replays/C*
+cd /; git -C /repo worktree remove --force $WT
